@@ -9,19 +9,35 @@ Threads of the real code and where they are in the model:
   read end, ends as planned (exit code, own signal, or never);
 * two **reader threads** (`read_captured_stream`, `Side.rd`/`Side.acc`): `read` (≤ `chunk` bytes,
   blocking), `n == 0 → break`, `buf.len() + n > max →` CAS on the overflow flag `(0 → code)` and
-  `break` (the buffer keeps what it had: a *truncated* prefix), else `extend`;
+  `break` (the buffer keeps what it had: a *truncated* prefix), else `extend`; a `read` may also
+  **fail** (`rdFail`: `EINTR`, `EIO`, … — std's pipe `read` does not retry): `?` ends the thread with
+  `Err`, its buffer is lost, the read end is closed; `join_capture` turns the `Err` into
+  `ProcessError::SpawnFailed` (`Err.readFailed`) *before* it looks at the flag;
+* the **stdin writer thread** (`spawn_stdin_writer`, `Inp`): exists only for `StdinPolicy::Text`;
+  one `write_all` of the whole text into a pipe of capacity `pipeCap`, which blocks while the pipe
+  is full and the child does not read; empty text → `Ok` at once; `EPIPE` (the child closed its
+  stdin or is gone) → `Ok`; any other write error (`wrFail`) → `Err`; the child's stdin is closed
+  when the thread ends. The child reads its stdin or not, and closes it, as it likes
+  (`childRead`, `childCloseIn`);
 * the **main thread** (`Pc`): `wait_for_child` (`load` flag → kill path; `try_wait`; deadline check;
-  `sleep`), `terminate_child` (`kill`, `wait`), then `join_capture` twice (join the reader, re-load
-  the flag, `String::from_utf8`), on the error path with the results ignored.
+  `sleep`), `terminate_child` (`kill`, `wait`), then — **after** the wait loop — `join_writer`
+  (an `Err` of the writer is `SpawnFailed`, `Err.writeFailed`; ignored on the error path), then
+  `join_capture` twice (join the reader, re-load the flag, `String::from_utf8`), on the error path
+  with the results ignored. `stepMainWF` is the *other* order (writer joined before the wait loop,
+  seeded change C16-c2), kept to show by a concrete execution that it is wrong.
 
 Every read and write of the shared flag is its own step. Executions are arbitrary interleavings:
 `run` applies any list of labels whose steps are all enabled.
 
 Assumed about the OS (this is what makes C16 *partial*): a pipe delivers bytes in order, `read`
 returns `min(requested, available)` and `0` only when the pipe is empty and the child is gone
-(no grandchild keeps the write end open); `SIGKILL` turns a live child into a zombie; `wait`/
-`try_wait` reap a zombie; reads, `try_wait` and thread joins do not fail (`SpawnFailed` is not
-modelled); stdin (`join_writer`) is not modelled (C15).
+(no grandchild keeps the write end open); a write to a pipe blocks while it is full and fails with
+`EPIPE` exactly when the read end is closed (the child closed it or is dead; no grandchild holds
+it); `SIGKILL` turns a live child into a zombie; `wait`/`try_wait` reap a zombie; `try_wait`,
+`kill`, `wait` and thread joins do not fail and threads do not panic (`spawn` failing is outside the
+model); *which* reads / writes fail is arbitrary (any `rdFail`/`wrFail` whenever a `read`/`write` is
+pending). What the stdin text *is* and whether the child receives it is C15, not modelled: only its
+length matters here. The child's age and the runner's clock tick together (`age`, `now`).
 
 Core-only imports (linked into `nvdriver`).
 -/
@@ -100,6 +116,9 @@ structure Cfg where
   `false` = the pinned commit (only the stream's own code is recognised, so the reader that lost
   the CAS has its truncated buffer validated). `Gen.Capture.joinAnyFlag` says which one /repo has. -/
   fixedJoin : Bool
+  /-- `spec.stdin`: `some n` = `StdinPolicy::Text` of `n` bytes (a pipe and a writer thread),
+  `none` = `Null` / `Inherit` (neither). -/
+  stdin : Option Nat := none
 deriving DecidableEq, Repr
 
 /-- What the child was told to do. -/
@@ -110,6 +129,8 @@ structure Plan where
   /-- Does a write to a pipe whose read end is closed kill the child (default `SIGPIPE`
   disposition), or does it merely fail with `EPIPE` (the harness's helper child)? -/
   sigpipeDies : Bool
+  /-- The child does not end by itself before it is this many ticks old (the sum of its sleeps). -/
+  endAfter : Nat := 0
 deriving DecidableEq, Repr
 
 def Cfg.pol (cfg : Cfg) : Strm → Policy
@@ -129,6 +150,23 @@ inductive Rd where
   | got (c : Bytes)    -- `read` returned the chunk `c`, size check not yet done
   | eof                -- finished after `n == 0`
   | ovf                -- finished after the size check failed (flag CAS attempted), read end closed
+  | failed             -- finished with `Err`: a `read` failed and `?` left the loop; read end closed
+deriving DecidableEq, Repr
+
+/-- The stdin writer thread. -/
+inductive Wr where
+  | absent             -- stdin is not `Text`: no pipe, no thread
+  | busy               -- in (or about to call) `write_all`
+  | fin                -- ended with `Ok(())`: everything written, empty text, or `BrokenPipe`
+  | failed             -- ended with `Err`: a write error other than `BrokenPipe`
+deriving DecidableEq, Repr
+
+/-- The child's stdin. Only lengths: which bytes arrive is C15's business. -/
+structure Inp where
+  pending   : Nat      -- bytes of the text the writer has still to write
+  pipe      : Nat      -- bytes in the pipe
+  wr        : Wr
+  childOpen : Bool     -- the child has not closed its stdin
 deriving DecidableEq, Repr
 
 /-- Everything that belongs to one stream. -/
@@ -156,6 +194,8 @@ inductive Err where
   | ole (x : Strm)        -- `ProcessError::OutputLimitExceeded`
   | badUtf8 (x : Strm)    -- `ProcessError::InvalidUtf8`
   | timeout               -- `ProcessError::Timeout`
+  | readFailed (x : Strm) -- `ProcessError::SpawnFailed(e)`, `e` from the reader thread of `x`
+  | writeFailed           -- `ProcessError::SpawnFailed(e)`, `e` from the stdin writer thread
 deriving DecidableEq, Repr
 
 inductive Outcome where
@@ -171,21 +211,26 @@ inductive Pc where
   | sleep (wake : Nat)                       -- `thread::sleep(sleep_for)`
   | kill (e : Err)                           -- `terminate_child`: `child.kill()`
   | reap (e : Err)                           -- `terminate_child`: `child.wait()`
+  | eJoinWr (e : Err)                        -- error path: `let _ = join_writer(writer)`
   | eJoinOut (e : Err)                       -- error path: `let _ = join_capture(stdout, …)`
   | eJoinErr (e : Err)                       -- error path: `let _ = join_capture(stderr, …)`
-  | joinOut (st : Option Nat)                -- `join_capture(stdout)`: `handle.join()`
+  | joinWr (st : Option Nat)                 -- `join_writer(writer)`, `Err → SpawnFailed`
+  | joinOut (st : Option Nat)                -- `join_capture(stdout)`: `handle.join()`, `Err → SpawnFailed`
   | flagOut (st : Option Nat)                -- … `overflow.load == 1`?, `String::from_utf8`
   | joinErr (st : Option Nat) (ro : Option Bytes)
   | flagErr (st : Option Nat) (ro : Option Bytes)
   | done (r : Outcome)
+  | preJoinWr                                -- only in `stepMainWF`: `join_writer` *before* the wait loop
 deriving DecidableEq, Repr
 
 structure State where
   o     : Side
   e     : Side
+  i     : Inp
   child : Child
   flag  : Nat          -- the `AtomicU8`: 0 = none, 1 = stdout, 2 = stderr
   now   : Nat          -- ticks since `Instant::now()` at the start of `wait_for_child`
+  age   : Nat          -- ticks since the child was started
   pc    : Pc
 deriving DecidableEq, Repr
 
@@ -210,9 +255,13 @@ def Side.init (pol : Policy) (bytes : Bytes) : Side :=
   { pending := bytes, written := [], pipe := [], acc := [],
     rd := if pol = .capture then .idle else .absent }
 
+def Inp.init : Option Nat → Inp
+  | none => { pending := 0, pipe := 0, wr := .absent, childOpen := true }
+  | some n => { pending := n, pipe := 0, wr := .busy, childOpen := true }
+
 def init (cfg : Cfg) (plan : Plan) : State :=
-  { o := Side.init cfg.polOut plan.out, e := Side.init cfg.polErr plan.err,
-    child := .alive, flag := 0, now := 0, pc := .load }
+  { o := Side.init cfg.polOut plan.out, e := Side.init cfg.polErr plan.err, i := Inp.init cfg.stdin,
+    child := .alive, flag := 0, now := 0, age := 0, pc := .load }
 
 /-! ## Steps of one side -/
 
@@ -227,14 +276,14 @@ def Side.write (pipeCap : Nat) (d : Side) (n : Nat) : Option Side :=
         some { d with pending := d.pending.drop n, written := d.written ++ d.pending.take n,
                       pipe := d.pipe ++ d.pending.take n }
       else none
-  | .eof | .ovf => none
+  | .eof | .ovf | .failed => none
 
-/-- A write to a pipe whose read end the overflowing reader has closed fails with `EPIPE`; the
-child gives up on these `n` bytes and carries on. -/
+/-- A write to a pipe whose read end the reader has closed (it stopped on the size check, or a
+`read` failed) fails with `EPIPE`; the child gives up on these `n` bytes and carries on. -/
 def Side.drop (d : Side) (n : Nat) : Option Side :=
   if n = 0 ∨ d.pending.length < n then none else
   match d.rd with
-  | .ovf => some { d with pending := d.pending.drop n }
+  | .ovf | .failed => some { d with pending := d.pending.drop n }
   | _ => none
 
 /-- `reader.read(&mut chunk)` with data available: `min(chunk, available)` bytes. -/
@@ -249,6 +298,13 @@ def Side.read (chunk : Nat) (d : Side) : Option Side :=
 def Side.eof (childAlive : Bool) (d : Side) : Option Side :=
   match d.rd with
   | .idle => if d.pipe = [] ∧ childAlive = false then some { d with rd := .eof } else none
+  | _ => none
+
+/-- `reader.read(&mut chunk)` returns `Err` (whatever the pipe holds, whether or not the child is
+alive): `?` ends the thread. -/
+def Side.fail (d : Side) : Option Side :=
+  match d.rd with
+  | .idle => some { d with rd := .failed }
   | _ => none
 
 /-- The size check after a successful `read`: over the cap → CAS `(0 → code)` and stop, keeping
@@ -266,11 +322,69 @@ def joinOverflow (fixedJoin : Bool) (flag : Nat) (x : Strm) : Option Strm :=
   if fixedJoin then (if flag ≠ 0 then some (fromCode flag) else none)
   else (if flag = code x then some x else none)
 
-/-- The thread has finished (or never existed): `handle.join()` returns. -/
+/-- The thread has finished with `Ok(buf)` (or never existed). -/
 def Side.joined (d : Side) : Bool :=
   match d.rd with
   | .absent | .eof | .ovf => true
   | _ => false
+
+/-- The thread has finished, with `Ok` or `Err` (or never existed): `handle.join()` returns. -/
+def Side.finished (d : Side) : Bool :=
+  match d.rd with
+  | .absent | .eof | .ovf | .failed => true
+  | _ => false
+
+/-- The read end of the reader's pipe is closed (the `ChildStdout`/`ChildStderr` was dropped). -/
+def Side.closed (d : Side) : Bool :=
+  match d.rd with
+  | .ovf | .failed => true
+  | _ => false
+
+/-! ## Steps of the stdin pipe -/
+
+/-- Somebody can still read from the stdin pipe. -/
+def Inp.readable (childAlive : Bool) (i : Inp) : Bool := childAlive && i.childOpen
+
+/-- One `write` inside `write_all`: `n` more bytes go into the pipe (blocks when they do not fit). -/
+def Inp.write (pipeCap : Nat) (childAlive : Bool) (i : Inp) (n : Nat) : Option Inp :=
+  match i.wr with
+  | .busy =>
+      if 0 < n ∧ n ≤ i.pending ∧ i.readable childAlive = true ∧ i.pipe + n ≤ pipeCap then
+        some { i with pending := i.pending - n, pipe := i.pipe + n }
+      else none
+  | _ => none
+
+/-- Everything written (or the text was empty): the thread ends with `Ok(())`. -/
+def Inp.finish (i : Inp) : Option Inp :=
+  match i.wr with
+  | .busy => if i.pending = 0 then some { i with wr := .fin } else none
+  | _ => none
+
+/-- `write` fails with `EPIPE` — nobody can read any more — which the thread maps to `Ok(())`. -/
+def Inp.epipe (childAlive : Bool) (i : Inp) : Option Inp :=
+  match i.wr with
+  | .busy => if 0 < i.pending ∧ i.readable childAlive = false then some { i with wr := .fin } else none
+  | _ => none
+
+/-- `write` fails with another error: the thread ends with `Err`. -/
+def Inp.fail (i : Inp) : Option Inp :=
+  match i.wr with
+  | .busy => if 0 < i.pending then some { i with wr := .failed } else none
+  | _ => none
+
+/-- The child reads `n` bytes of its stdin. -/
+def Inp.childRead (i : Inp) (n : Nat) : Option Inp :=
+  if 0 < n ∧ n ≤ i.pipe ∧ i.childOpen = true then some { i with pipe := i.pipe - n } else none
+
+/-- The child closes its stdin. -/
+def Inp.childClose (i : Inp) : Option Inp :=
+  if i.childOpen = true then some { i with childOpen := false } else none
+
+/-- The writer thread has finished (or never existed): `join_writer` returns. -/
+def Inp.finished (i : Inp) : Bool :=
+  match i.wr with
+  | .busy => false
+  | _ => true
 
 /-! ## The transition relation -/
 
@@ -282,6 +396,13 @@ inductive Label where
   | rdRead (x : Strm)
   | rdCheck (x : Strm)
   | rdEof (x : Strm)
+  | rdFail (x : Strm)    -- a `read` of the captured stream fails
+  | wrWrite (n : Nat)    -- the stdin writer gets `n` more bytes into the pipe
+  | wrEnd                -- … has written everything
+  | wrEpipe              -- … gets `EPIPE`
+  | wrFail               -- … gets another write error
+  | childRead (n : Nat)  -- the child reads `n` bytes of its stdin
+  | childCloseIn         -- the child closes its stdin
   | main                 -- the main thread executes the statement at its program counter
   | tick                 -- one unit of time passes
 deriving DecidableEq, Repr
@@ -298,7 +419,7 @@ def stepMain (cfg : Cfg) (s : State) : Option State :=
       else some { s with pc := .tryWait }
   | .tryWait =>
       match s.child with
-      | .zombie st c => some { s with child := .reaped st c, pc := .joinOut st }
+      | .zombie st c => some { s with child := .reaped st c, pc := .joinWr st }
       | .alive => some { s with pc := .deadline }
       | .reaped _ _ => none
   | .deadline =>
@@ -311,14 +432,21 @@ def stepMain (cfg : Cfg) (s : State) : Option State :=
       | _ => some { s with pc := .reap e }
   | .reap e =>
       match s.child with
-      | .zombie st c => some { s with child := .reaped st c, pc := .eJoinOut e }
+      | .zombie st c => some { s with child := .reaped st c, pc := .eJoinWr e }
       | _ => none
-  | .eJoinOut e => if s.o.joined then some { s with pc := .eJoinErr e } else none
-  | .eJoinErr e => if s.e.joined then some { s with pc := .done (.error e) } else none
+  | .eJoinWr e => if s.i.finished then some { s with pc := .eJoinOut e } else none
+  | .eJoinOut e => if s.o.finished then some { s with pc := .eJoinErr e } else none
+  | .eJoinErr e => if s.e.finished then some { s with pc := .done (.error e) } else none
+  | .joinWr st =>
+      match s.i.wr with
+      | .busy => none
+      | .failed => some { s with pc := .done (.error .writeFailed) }
+      | .absent | .fin => some { s with pc := .joinOut st }
   | .joinOut st =>
       match s.o.rd with
       | .absent => some { s with pc := .joinErr st none }
       | .eof | .ovf => some { s with pc := .flagOut st }
+      | .failed => some { s with pc := .done (.error (.readFailed .out)) }
       | _ => none
   | .flagOut st =>
       match joinOverflow cfg.fixedJoin s.flag .out with
@@ -330,6 +458,7 @@ def stepMain (cfg : Cfg) (s : State) : Option State :=
       match s.e.rd with
       | .absent => some { s with pc := .done (.ok st ro none) }
       | .eof | .ovf => some { s with pc := .flagErr st ro }
+      | .failed => some { s with pc := .done (.error (.readFailed .err)) }
       | _ => none
   | .flagErr st ro =>
       match joinOverflow cfg.fixedJoin s.flag .err with
@@ -338,6 +467,7 @@ def stepMain (cfg : Cfg) (s : State) : Option State :=
           if validUtf8 s.e.acc then some { s with pc := .done (.ok st ro (some s.e.acc)) }
           else some { s with pc := .done (.error (.badUtf8 .err)) }
   | .done _ => none
+  | .preJoinWr => none      -- not a statement of this program
 
 def step (cfg : Cfg) (plan : Plan) (s : State) : Label → Option State
   | .childWrite x n =>
@@ -345,11 +475,11 @@ def step (cfg : Cfg) (plan : Plan) (s : State) : Label → Option State
   | .childDrop x n =>
       if s.child.isAlive then (Side.drop (s.side x) n).map (s.setSide x) else none
   | .childSigpipe x =>
-      if s.child.isAlive ∧ plan.sigpipeDies = true ∧ (s.side x).rd = .ovf ∧ (s.side x).pending ≠ [] then
+      if s.child.isAlive ∧ plan.sigpipeDies = true ∧ (s.side x).closed = true ∧ (s.side x).pending ≠ [] then
         some { s with child := .zombie none .sigpipe }
       else none
   | .childEnd =>
-      if s.child.isAlive ∧ s.o.pending = [] ∧ s.e.pending = [] then
+      if s.child.isAlive ∧ s.o.pending = [] ∧ s.e.pending = [] ∧ plan.endAfter ≤ s.age then
         match plan.ending.status with
         | some st => some { s with child := .zombie st .plan }
         | none => none
@@ -358,10 +488,17 @@ def step (cfg : Cfg) (plan : Plan) (s : State) : Label → Option State
   | .rdCheck x =>
       (Side.check cfg.cap (code x) s.flag (s.side x)).map (fun r => { s.setSide x r.1 with flag := r.2 })
   | .rdEof x => (Side.eof s.child.isAlive (s.side x)).map (s.setSide x)
+  | .rdFail x => (Side.fail (s.side x)).map (s.setSide x)
+  | .wrWrite n => (Inp.write cfg.pipeCap s.child.isAlive s.i n).map (fun i => { s with i := i })
+  | .wrEnd => (Inp.finish s.i).map (fun i => { s with i := i })
+  | .wrEpipe => (Inp.epipe s.child.isAlive s.i).map (fun i => { s with i := i })
+  | .wrFail => (Inp.fail s.i).map (fun i => { s with i := i })
+  | .childRead n => if s.child.isAlive then (Inp.childRead s.i n).map (fun i => { s with i := i }) else none
+  | .childCloseIn => if s.child.isAlive then (Inp.childClose s.i).map (fun i => { s with i := i }) else none
   | .main => stepMain cfg s
   | .tick => match s.pc with
       | .done _ => none
-      | _ => some { s with now := s.now + 1 }
+      | _ => some { s with now := s.now + 1, age := s.age + 1 }
 
 /-- An execution: every step must be enabled. -/
 def run (cfg : Cfg) (plan : Plan) : State → List Label → Option State
@@ -375,6 +512,113 @@ def State.result (s : State) : Option Outcome :=
   match s.pc with
   | .done r => some r
   | _ => none
+
+/-! ## The other order: the stdin writer joined *before* the wait loop (seeded change C16-c2)
+
+```text
+if let Err(err) = join_writer(writer) { terminate_child(&mut child); return Err(SpawnFailed(err)); }
+let status = match wait_for_child(..) { Ok(s) => s, Err(err) => { join_capture ×2; return Err(err) } };
+join_capture(stdout)?; join_capture(stderr)?
+```
+`wait_for_child` takes `start = Instant::now()` when it is entered: the runner's clock restarts. The
+writer-error path is routed through the ordinary kill path (the changed code does not join the
+readers there; immaterial for what this definition is used for). -/
+
+def stepMainWF (cfg : Cfg) (s : State) : Option State :=
+  match s.pc with
+  | .preJoinWr =>
+      match s.i.wr with
+      | .busy => none
+      | .failed => some { s with pc := .kill .writeFailed }
+      | .absent | .fin => some { s with pc := .load, now := 0 }
+  | .tryWait =>
+      match s.child with
+      | .zombie st c => some { s with child := .reaped st c, pc := .joinOut st }
+      | .alive => some { s with pc := .deadline }
+      | .reaped _ _ => none
+  | .reap e =>
+      match s.child with
+      | .zombie st c => some { s with child := .reaped st c, pc := .eJoinOut e }
+      | _ => none
+  | _ => stepMain cfg s
+
+def stepWF (cfg : Cfg) (plan : Plan) (s : State) (l : Label) : Option State :=
+  if l = .main then stepMainWF cfg s else step cfg plan s l
+
+def runWF (cfg : Cfg) (plan : Plan) : State → List Label → Option State
+  | s, [] => some s
+  | s, l :: ls =>
+      match stepWF cfg plan s l with
+      | some s' => runWF cfg plan s' ls
+      | none => none
+
+def initWF (cfg : Cfg) (plan : Plan) : State := { init cfg plan with pc := .preJoinWr }
+
+/-- The main thread is *prompt* in an execution: time passes only while it is blocked (it is never
+descheduled with a statement ready to run, and `sleep` does not oversleep). `mainF`/`stepF` select
+the program (`stepMain`/`step`, or the `WF` pair). -/
+def prompt (mainF : State → Option State) (stepF : State → Label → Option State) :
+    State → List Label → Bool
+  | _, [] => true
+  | s, l :: ls =>
+      (l != .tick || (mainF s).isNone) &&
+        (match stepF s l with
+         | some s' => prompt mainF stepF s' ls
+         | none => true)
+
+/-! ## The reader loop on a scripted `Read` (tie of `rdFail`: request `rd` of the `capture` protocol)
+
+`read_captured_stream<R: Read>` is generic; the harness calls it (hook `verif_read_captured_stream`)
+on a reader that plays a script. `readLoop` is the same loop on the same script;
+`Props/C16.lean` proves it equal to iterating the transition system's own reader steps
+(`Side.read`, `Side.check`, `Side.eof`, `Side.fail`). -/
+
+inductive RdEv where
+  | data (c : Bytes)   -- `read` returns `c.length` bytes (`data []` is a zero-length read)
+  | zero               -- `read` returns `Ok(0)`
+  | fail               -- `read` returns `Err(_)`
+deriving DecidableEq, Repr
+
+inductive RdRes where
+  | ok (buf : Bytes)   -- `Ok(buf)`
+  | err                -- `Err(_)`
+deriving DecidableEq, Repr
+
+/-- `read_captured_stream(reader, cap, my, flag)`: result and final value of the flag. A script that
+runs out behaves like end of file. -/
+def readLoop (cap my : Nat) : (flag : Nat) → (buf : Bytes) → List RdEv → RdRes × Nat
+  | flag, buf, [] => (.ok buf, flag)
+  | flag, buf, .zero :: _ => (.ok buf, flag)
+  | flag, _, .fail :: _ => (.err, flag)
+  | flag, buf, .data c :: rest =>
+      if c = [] then (.ok buf, flag)
+      else if buf.length + c.length > cap then (.ok buf, if flag = 0 then my else flag)
+      else readLoop cap my flag (buf ++ c) rest
+
+/-- The reader hands `read` a buffer of `chunk` bytes: a longer piece of data arrives in several reads. -/
+def splitChunk (chunk : Nat) : (fuel : Nat) → Bytes → List RdEv
+  | 0, c => [.data c]
+  | fuel + 1, c =>
+      if chunk = 0 ∨ c.length ≤ chunk then [.data c]
+      else .data (c.take chunk) :: splitChunk chunk fuel (c.drop chunk)
+
+def expandEvents (chunk : Nat) : List RdEv → List RdEv
+  | [] => []
+  | .data c :: rest => splitChunk chunk c.length c ++ expandEvents chunk rest
+  | e :: rest => e :: expandEvents chunk rest
+
+/-- `join_capture(x)` for a reader thread that ended with `r`, the flag at `flag`. -/
+inductive JoinRes where
+  | text (b : Bytes)
+  | error (e : Err)
+deriving DecidableEq, Repr
+
+def joinCapture (fixedJoin : Bool) (flag : Nat) (x : Strm) : RdRes → JoinRes
+  | .err => .error (.readFailed x)
+  | .ok buf =>
+      match joinOverflow fixedJoin flag x with
+      | some y => .error (.ole y)
+      | none => if validUtf8 buf then .text buf else .error (.badUtf8 x)
 
 /-! ## The outcomes the theorem allows for a given configuration and plan
 
@@ -415,6 +659,32 @@ def allowed (cfg : Cfg) (plan : Plan) : Outcome → Bool
   | .error (.badUtf8 .err) =>
       cfg.captured .err && !over cfg plan .err && !over cfg plan .out && !validUtf8 plan.err
         && (!cfg.captured .out || validUtf8 plan.out)
+  | .error (.readFailed _) => false     -- needs a failing `read`: see `faultAllowed`
+  | .error .writeFailed => false        -- needs a failing `write`
+
+/-- What a **fault** of the runner's own I/O adds: `fo`/`fe` = a `read` of stdout/stderr has failed,
+`fw` = a `write` of the stdin text has failed (with an error other than `EPIPE`). Never an `ok`.
+`InvalidUtf8(stdout)`: stderr's reader failed and closed its pipe, the child died of `SIGPIPE`
+writing to it, and what it had written to stdout until then ends inside a character. -/
+def faultAllowed (cfg : Cfg) (plan : Plan) (fo fe fw : Bool) : Outcome → Bool
+  | .error (.readFailed .out) => fo
+  | .error (.readFailed .err) => fe
+  | .error .writeFailed => fw
+  | .error (.badUtf8 .out) =>
+      fe && plan.sigpipeDies && cfg.captured .out && prefixInvalid cfg.cap plan.out
+  | _ => false
+
+/-- The allowed outcomes in state `s` (whose fault marks are permanent). -/
+def allowedIn (cfg : Cfg) (plan : Plan) (s : State) (r : Outcome) : Bool :=
+  allowed cfg plan r ||
+    faultAllowed cfg plan (s.o.rd == .failed) (s.e.rd == .failed) (s.i.wr == .failed) r
+
+/-- With the main thread prompt, a child that is still asleep one poll interval after the deadline
+is never reported as a success (`outliving_child_is_never_ok`): the `ok` candidates of the tie. -/
+def allowedTimed (cfg : Cfg) (plan : Plan) : Outcome → Bool
+  | .ok st out err =>
+      allowed cfg plan (.ok st out err) && decide (plan.endAfter < cfg.timeout + max cfg.poll 1)
+  | r => allowed cfg plan r
 
 /-- The shape of D-16 (pinned `join_capture` only): `InvalidUtf8(stdout)` although everything the
 child was told to write to stdout is valid UTF-8 and it does not die half-way. -/
@@ -427,9 +697,9 @@ def candidates (cfg : Cfg) (plan : Plan) : List Outcome :=
    | some st => [.ok st (expect cfg plan .out) (expect cfg plan .err)]
    | none => []) ++
   [.error (.ole .out), .error (.ole .err), .error (.badUtf8 .out), .error (.badUtf8 .err),
-   .error .timeout]
+   .error .timeout, .error (.readFailed .out), .error (.readFailed .err), .error .writeFailed]
 
 def allowedList (cfg : Cfg) (plan : Plan) : List Outcome :=
-  (candidates cfg plan).filter (allowed cfg plan)
+  (candidates cfg plan).filter (allowedTimed cfg plan)
 
 end NaijaVerif.Capture
